@@ -673,6 +673,12 @@ def eval_pipeline(ctx, c):
     else:
         override = {nm: rng.choice([9.0, 0.0, 2.0]) for nm in rng.sample(TARGET_NAMES, 2)}
     cal_freqs = add_applycal_sensors(cache, attrs, freqs, 'l1', subs, gaincal_flux=override)
+    if attrs['measured_flux'] != dict(c['flux']['table']):
+        # the overrides belong to this call only: the stream's measured fluxes must stay what the pipeline measured
+        # (a later open of the same stream without overrides would otherwise be scaled by stale values)
+        msg = (f"add_applycal_sensors(gaincal_flux={override}) changed the cal stream's measured_flux attribute from "
+               f"{dict(c['flux']['table'])} to {attrs['measured_flux']}")
+        return [], (lambda nodes, msg=msg: (msg, False))
     ptype, inp = c['ptype'], c['inp']
     index = (pols.index(inp[-1]), ants.index(inp[:-1]))
     product = get_cal_product(cache, 'l1', ptype)
@@ -685,6 +691,17 @@ def eval_pipeline(ctx, c):
             msg = (f'product sensor {ptype} at the dump of the solution solved at t={t_sol} does not hold that solution '
                    f'(solution times {solutions[ptype][0]}, substreams {subs}, parts {c["b_parts"]})')
             return [], (lambda nodes, msg=msg: (msg, False))
+    if ptype in ('G', 'GPHASE', 'GAMP_PHASE') and solutions[ptype][0]:
+        # a gain solution says nothing about the time before it was derived: until the first solution the product
+        # sensor holds the invalid gain (so that no earlier dump, on whatever target, is corrected with it)
+        first_t = int(min(solutions[ptype][0]))
+        for d_early in range(first_t):
+            if not np.all(np.isnan(np.asarray(product[d_early]))):
+                msg = (f'product sensor {ptype} at dump {d_early}, before the first solution (t={first_t}), holds a '
+                       f'valid gain instead of the invalid marker')
+                return [], (lambda nodes, msg=msg: (msg, False))
+        if first_t:
+            ctx.tag('pipeline-gain-before-first-solution')
     with np.errstate(all='ignore'):
         corr = cache.get(f'Calibration/Corrections/l1/{ptype}/{inp}')
     ctx.tag('pipeline-' + ptype, 'pipeline-override-' + c['overrides'])
